@@ -32,7 +32,14 @@ Definition edge_records (e : dedge) : list record :=
 Definition save_records (s : store) : list record :=
   flat_map node_records (sn_nodes (snapshot_of s)) ++ flat_map edge_records (sn_edges (snapshot_of s)).
 
-Inductive ires := IOk (s : store) | IErr.
+Inductive ires := IOk (s : store) | IErr | IPanic.
+
+(** [create_node_with_id] / [create_edge_with_id] compute [id + 1] for the id counter: the
+    largest id overflows (a panic in the overflow-checked build profiles) *)
+Definition id_max : Z := 2 ^ 64 - 1.
+Definition names_max_id (sn : snapshot) : bool :=
+  existsb (fun n : dnode => fst (fst n) =? id_max) (sn_nodes sn)
+  || existsb (fun e : dedge => fst (fst (fst (fst e))) =? id_max) (sn_edges sn).
 
 Section Snap.
   Variable enc_snap : snapshot -> bytes.
@@ -46,7 +53,8 @@ Section Snap.
   Definition import (bs : bytes) : ires :=
     match dec_snap bs with
     | None => IErr
-    | Some (sn, _) => if sn_version sn =? 1 then IOk (build sn) else IErr
+    | Some (sn, _) =>
+        if sn_version sn =? 1 then (if names_max_id sn then IPanic else IOk (build sn)) else IErr
     end.
 End Snap.
 
